@@ -61,7 +61,7 @@ PROPS = {
     ),
     'C08': dict(
         level='model_checking',
-        verus=[],
+        verus=['pos_conv'],
         kani_quick=['pos_conv.index_to_position_ref_3', 'pos_conv.span_to_range_ref_3', 'pos_conv.roundtrip_inner_3', 'pos_conv.roundtrip_single_line_3',
                     'pos_conv.span_roundtrip_inner_3', 'pos_conv.roundtrip_final_line_3'],
         kani_thorough=['pos_conv.index_to_position_ref_3', 'pos_conv.span_to_range_ref_3', 'pos_conv.span_to_range_ref_4', 'pos_conv.roundtrip_inner_3', 'pos_conv.roundtrip_single_line_3',
@@ -70,7 +70,7 @@ PROPS = {
                        'pos_conv.span_roundtrip_inner_4', 'pos_conv.index_to_position_ref_5', 'pos_conv.roundtrip_inner_5'],
         rac=['lsp_glue'],
         unverified=[
-            'BOUNDED ONLY: pos_conv.rs is enumerate().filter_map().take().collect() iterator code outside Verus; nothing here is an unbounded proof',
+            'PROVED (unit pos_conv, desugarings R12/R13): index_to_position and span_to_range equal the reference for every text shorter than 2^31 characters, and positions grow strictly with the index. BOUNDED ONLY: position_to_index / range_to_span and the round trips (enumerate().filter_map().take().collect() + pop() code; Kani harnesses)',
             'lint_to_code_actions / generate_code_actions (Url, HashMap, serde_json, Document): TextEdit construction and code-action lookup are not under contract',
             'texts longer than the bound, characters outside the 6-symbol alphabet',
         ],
